@@ -34,6 +34,62 @@ type spec struct {
 	extraSubj func(v ssa.Value) bool
 	extraInt  func(v ssa.Value) (int64, bool) // other values the specialisation fixes
 	pkg       *ssa.Package
+	c         *Ctx // when set, package-level tables that are never written (tables.go) are resolved: lookups by a known key, calls through a table entry
+}
+
+// tableCallee: the function a call through an entry of a package-level function table reaches when the key is known
+// under the specialisation (`conv := table[typ.Kind()]; conv(v)`, `table[k].toGo(p, v)`).
+func (ctx *specCtx) tableCallee(call *ssa.Call) *ssa.Function {
+	if ctx.sp.c == nil || call.Call.IsInvoke() || call.Call.StaticCallee() != nil {
+		return nil
+	}
+	ft, keyVal, field, _ := ctx.sp.c.tableLookupOf(call.Call.Value)
+	if ft == nil {
+		return nil
+	}
+	k, ok := ctx.intOf(keyVal)
+	if !ok {
+		return nil
+	}
+	if field >= 0 {
+		return ft.fields[k][field]
+	}
+	return ft.fns[k]
+}
+
+// tableHas: v is the "found" component of a comma-ok lookup in such a table by a known key.
+func (ctx *specCtx) tableHas(v ssa.Value) (bool, bool) {
+	ex, ok := v.(*ssa.Extract)
+	if !ok || ex.Index != 1 || ctx.sp.c == nil {
+		return false, false
+	}
+	lk, ok := ex.Tuple.(*ssa.Lookup)
+	if !ok || !lk.CommaOk {
+		return false, false
+	}
+	k, ok := ctx.intOf(lk.Index)
+	if !ok {
+		return false, false
+	}
+	ld, ok := lk.X.(*ssa.UnOp)
+	if !ok || ld.Op != token.MUL {
+		return false, false
+	}
+	g, ok := ld.X.(*ssa.Global)
+	if !ok {
+		return false, false
+	}
+	if ft := ctx.sp.c.funcTableOf(g); ft != nil {
+		_, a := ft.fns[k]
+		_, b := ft.fields[k]
+		return a || b, true
+	}
+	if ct := ctx.sp.c.constTableOf(g.Object()); ct != nil && ct.isMap {
+		_, a := ct.ints[k]
+		_, b := ct.strs[k]
+		return a || b, true
+	}
+	return false, false
 }
 
 type specCtx struct {
@@ -140,6 +196,10 @@ func (ctx *specCtx) boolOf(v ssa.Value) (bool, bool) {
 			b, ok := ctx.boolOf(x.X)
 			return !b, ok
 		}
+	case *ssa.Extract:
+		if b, ok := ctx.tableHas(x); ok {
+			return b, true
+		}
 	case *ssa.BinOp:
 		a, ok1 := ctx.intOf(x.X)
 		b, ok2 := ctx.intOf(x.Y)
@@ -215,11 +275,18 @@ func (ctx *specCtx) boolOf(v ssa.Value) (bool, bool) {
 // value; nil when the call is not entered.
 func (ctx *specCtx) enter(call *ssa.Call) *specCtx {
 	callee := call.Call.StaticCallee()
+	viaTable := false
+	if callee == nil {
+		// a call through an entry of a package-level function table selected by a known key
+		if callee = ctx.tableCallee(call); callee != nil {
+			viaTable = true
+		}
+	}
 	if callee == nil || callee.Pkg != ctx.sp.pkg || len(callee.Blocks) == 0 || ctx.depth >= 4 {
 		return nil
 	}
 	bind := map[*ssa.Parameter]specBind{}
-	any := false
+	any := viaTable // the entry was chosen by the specialisation: what it does is what the dispatcher does for this kind
 	for i, a := range call.Call.Args {
 		if i >= len(callee.Params) {
 			break
@@ -457,7 +524,7 @@ func kindSpecClauses(c *Ctx) {
 		return
 	}
 	mk := func(fn *ssa.Function, subjType string, k int64) *specCtx {
-		sp := &spec{kind: k, pkg: ipkg, ints: map[string]int64{}}
+		sp := &spec{kind: k, pkg: ipkg, ints: map[string]int64{}, c: c}
 		ctx := &specCtx{fn: fn, sp: sp, bind: map[*ssa.Parameter]specBind{}}
 		if p := subjectParam(fn, subjType); p != nil {
 			ctx.bind[p] = specBind{subject: true}
